@@ -527,8 +527,15 @@ class CallsMixin:
                 self.total(st, z3.Exists([j], z3.And(0 <= j, j < ln, T.Sel(arr, j) == xt)),
                            f'value present for {self.src(node)}', node)
                 r = z3.Int(fresh_name('idx'))
-                st.assume(z3.And(0 <= r, r < ln, T.Sel(arr, r) == xt,
-                                 z3.ForAll([j], z3.Implies(z3.And(0 <= j, j < r), T.Sel(arr, j) != xt))))
+                props = z3.And(0 <= r, r < ln, T.Sel(arr, r) == xt,
+                               z3.ForAll([j], z3.Implies(z3.And(0 <= j, j < r), T.Sel(arr, j) != xt)))
+                if self.in_spec:
+                    # in a contract expression the element need not be present: the index is only characterised
+                    # when it is (otherwise it is an arbitrary integer)
+                    j2 = z3.Int(fresh_name('j'))
+                    st.pc.append(z3.Implies(z3.Exists([j2], z3.And(0 <= j2, j2 < ln, T.Sel(arr, j2) == xt)), props))
+                else:
+                    st.assume(props)
                 return V(INT, r)
             if name == 'astype' and k == 'Np1':
                 tgt = self.src(node.args[0])
